@@ -61,6 +61,9 @@ PROLOGUES = [
     ("uc", [["assign", "u", ["bin", "+", V("x"), L(1)]]]),
     ("vc", [["assign", "v", ["bin", "*", V("x"), L(2)]]]),
     ("none", []),
+    # a parameter name is re-assigned (python: plain rebinding; ONNX: needs a fresh value name)
+    ("xr,uc,vc", [["assign", "x", ["bin", "*", V("x"), L(2)]], ["assign", "u", ["bin", "+", V("x"), L(1)]],
+                  ["assign", "v", ["bin", "*", V("x"), L(2)]]]),
 ]
 RETURNS = [("u,v", ["u", "v"]), ("u", ["u"]), ("v", ["v"]), ("v,u", ["v", "u"]), ("u,u", ["u", "u"]),
            ("x,u", ["x", "u"])]
@@ -70,7 +73,8 @@ KINDS = ["if", "for", "while", "forb", "whileb"]
 
 
 class DFConfig:
-    def __init__(self, size, depth, alphabet="full", kinds=KINDS, periph=0, top_items=3):
+    def __init__(self, size, depth, alphabet="full", kinds=KINDS, periph=0, top_items=3, ivar_after=True):
+        self.ivar_after = ivar_after
         self.size = size
         self.depth = depth
         self.alphabet = alphabet
@@ -145,7 +149,7 @@ def df_driver(cfg):
 
         pro = ch.choose("prologue", PROLOGUES)
         ret = ch.choose("return", RETURNS)
-        stale = ch.choose("ivar_after", [False, True])
+        stale = ch.choose("ivar_after", [False, True]) if cfg.ivar_after else False
         body = block(0, None, True)
         full = list(pro[1]) + body
         if stale:
@@ -555,6 +559,9 @@ def op_valuations(prog, tier):
     out = []
     for shape, k, b, nd in table:
         out.append(_mk_val(prog, pn, _vals(main, shape, a), _vals(main, shape, b_), k, b, nondef if nd else {}))
+    # broadcasting between the two tensor operands
+    out.append(_mk_val(prog, pn, _vals(main, (3,), a), _vals(main, (), b_[1:]), 1, False, {}))
+    out.append(_mk_val(prog, pn, _vals(main, (2, 3), a), _vals(main, (3,), b_), 3, True, {}))
     # ties / equal values (TopK tiebreak, comparisons)
     out.append(_mk_val(prog, pn, _vals(main, (4,), [1, 1, -1, 1]), _vals(main, (4,), [1, -1, -1, 2]), 1, True, {}))
     if main == "F":
@@ -603,7 +610,8 @@ def enumerate_plan(tier, stats):
         fams.append(("df-mini-s5", df_driver(DFConfig(size=5, depth=1, alphabet="mini", kinds=["if", "for"], top_items=2)), 0))
         fams.append(("op-b1", op_driver(), 1))
     else:
-        fams.append(("df-full-s3-periph1", df_driver(DFConfig(size=3, depth=2)), 1))
+        fams.append(("df-full-s2-periph1", df_driver(DFConfig(size=2, depth=1)), 1))
+        fams.append(("df-full-s3-periph1", df_driver(DFConfig(size=3, depth=2, kinds=nowb, ivar_after=False)), 1))
         fams.append(("df-full-s4", df_driver(DFConfig(size=4, depth=2, kinds=nowb)), 0))
         fams.append(("df-reduced-s5", df_driver(DFConfig(size=5, depth=2, alphabet="reduced", kinds=["if", "for", "while"])), 0))
         fams.append(("op-b2", op_driver(), 2))
